@@ -20,8 +20,8 @@ func TestMain(m *testing.M) { ev.Main(m, "C13") }
 
 type dayCase struct{ J int }
 
-func jd(x ref.DT) int       { return ref.JDN(x.Y, x.M, x.D) }
-func stem(j int) int        { return ref.DayPillar(j) % 10 }
+func jd(x ref.DT) int { return ref.JDN(x.Y, x.M, x.D) }
+func stem(j int) int  { return ref.DayPillar(j) % 10 }
 func has(l *list.List, s string) bool {
 	for e := l.Front(); e != nil; e = e.Next() {
 		if e.Value.(string) == s {
@@ -55,14 +55,14 @@ func nthStemDay(j, g, n int) int {
 var termNames = []string{"大雪", "冬至", "小寒", "大寒", "立春", "雨水", "惊蛰", "春分", "清明", "谷雨", "立夏", "小满", "芒种", "夏至", "小暑", "大暑", "立秋", "处暑", "白露", "秋分", "寒露", "霜降", "立冬", "小雪", "大雪", "冬至", "小寒", "大寒", "立春", "雨水", "惊蛰"}
 
 type want struct {
-	shuJiu            string
-	shuJiuIdx         int
-	fu                string
-	fuIdx             int
-	hou, wuHou        string
-	chuXi, hanShi     bool
-	chunShe, qiuShe   bool
-	edge              []string
+	shuJiu          string
+	shuJiuIdx       int
+	fu              string
+	fuIdx           int
+	hou, wuHou      string
+	chuXi, hanShi   bool
+	chunShe, qiuShe bool
+	edge            []string
 }
 
 func model(j int) want {
